@@ -42,6 +42,9 @@ CHECKS = {
  "C09": (EX, "metamorphic relations over complete small spaces through vario_estimate: all permutations, all lattice symmetries, generic rigid motions, field offsets / factors, every removal of <= 2 points vs every missing-value encoding, structured vs unstructured, seeded sub-sampling vs the reproducible subset, co-rotated directions, unit conversion on the sphere, standard bins, preprocessing",
          "Every relation is executed on all point multisets (n <= 5) of a small lattice or all small grids, with all n! permutations and all 2^d d! lattice symmetries in exact arithmetic (counts identical), so no reference value is needed; missing-value handling is compared against physically removed points for every subset of <= 2 points and every pair of per-field missing positions; lat-lon binning is compared across units and against the great-circle oracle.",
          "small point sets; generic rotations are three per seed with bin edges outside the guard band", "5/C09"),
+ "C13": (EX, "bounded exhaustive enumeration over a lat-lon alphabet (poles, date line, antipodes, out-of-range longitudes) x geo_scale x temporal / time anisotropy against spherical trigonometry; covariance read back from kriging and SRF; rotation group of the cube on the sphere; space-time decoupling",
+         "All points and all pairs of the alphabet are pushed through the sphere embedding and its inverse, the chordal / great-circle maps, a one-point simple kriging and the SRF mode sum (covariance actually used == Yadrenko covariance of the atan2 great-circle distance), fitting at great-circle lags, standard bins in every unit; kriging and the estimator are repeated under the 24 cube rotations and generic rotations of the sphere; spatio-temporal models are checked for every angle-vector length (zeroed space-time angles), metric space-time kriging against the dense oracle and the SRF structure.",
+         "finite lat-lon / scale / anisotropy alphabets; universal kriging excluded from rotation invariance (drifts are functions of lat, lon)", "5/C13"),
 }
 PENDING = {}
 def main():
